@@ -189,8 +189,47 @@ func c03SecretSweep(c *Ctx) {
 	}
 }
 
+// c03Dense: every body length of the thorough list on one (secret, session) pair, spread over all workers.
+func c03Dense(c *Ctx) {
+	key := []byte("fooman")
+	lens := c03Lengths(false)
+	srv, err := newC03Server(key)
+	if err != nil {
+		c.Abort("hang", err.Error(), nil)
+	}
+	defer func() { srv.w.Stop() }()
+	for li, n := range lens {
+		if !c.Mine(li) {
+			continue
+		}
+		for _, ver := range []byte{0xc0, 0xc1} {
+			for _, fl := range []byte{0, 1, 4, 5, 0xfe, 0xff} {
+				for _, seq := range []int{1, 255} {
+					cs := c03Case{Secret: fmt.Sprintf("%x", key), Session: 0x01020304, Version: ver, Seq: byte(seq), Flags: fl, N: n}
+					if srv.conn.Closed() {
+						srv.w.Stop()
+						if srv, err = newC03Server(key); err != nil {
+							c.Abort("hang", err.Error(), cs)
+						}
+					}
+					c03Server(c, srv, key, cs)
+				}
+				for _, seq := range []int{2, 254} {
+					c03Client(c, key, c03Case{Secret: fmt.Sprintf("%x", key), Session: 0x01020304, Version: ver, Seq: byte(seq), Flags: fl, N: n})
+				}
+			}
+		}
+		if c.Expired() {
+			return
+		}
+	}
+}
+
 func c03Run(c *Ctx) {
 	c03SecretSweep(c)
+	if !c.Quick {
+		c03Dense(c)
+	}
 	secrets := c03Secrets()
 	versions := []byte{0xc0, 0xc1}
 	flags := []byte{0, 1, 4, 5, 0xfe, 0xff}
@@ -220,11 +259,6 @@ func c03Run(c *Ctx) {
 				}
 				lens := c03Lengths(true)
 				seqsS, seqsC := srvSeqs, cliSeqs
-				if !c.Quick && si == 2 && sid == 0x01020304 {
-					// the dense length plane: every length on one (secret, session) pair, few sequence numbers
-					lens = c03Lengths(false)
-					seqsS, seqsC = []int{1, 255}, []int{2, 254}
-				}
 				for _, fl := range flags {
 					for _, n := range lens {
 						for _, seq := range seqsS {
